@@ -45,6 +45,17 @@ func leakHook(c *mon.Case, sc *eng.Scen) func(r *eng.ScenResult) {
 	}
 }
 
+// leakHookInconc is used by checks whose property is not about leaks: a bubble
+// with leaked goroutines cannot be torn down, so the worker reports the rest of
+// its cases as inconclusive and exits (C12 is the check that judges leaks).
+func leakHookInconc(c *mon.Case, sc *eng.Scen) func(r *eng.ScenResult) {
+	return func(r *eng.ScenResult) {
+		g := r.Leaked[0]
+		c.Shard.Inconc(fmt.Sprintf("worker stopped at case %d: %d goroutine(s) of the connection leaked after Close (created by %s) - judged by C12, not by this check", c.Idx, len(r.Leaked), g.CreatedBy()))
+		mon.FlushAndExit(c.Shard)
+	}
+}
+
 func TestC01(t *testing.T) {
 	mon.Main(t, mon.Check{
 		ID:    "C01",
@@ -68,7 +79,7 @@ func TestC01(t *testing.T) {
 
 func runC01(c *mon.Case) {
 	sc := eng.RandScen(c.Rng, c.Tier, c.Idx)
-	r := eng.RunScen(c.T, sc, eng.Hooks{OnLeak: leakHook(c, sc)})
+	r := eng.RunScen(c.T, sc, eng.Hooks{OnLeak: leakHookInconc(c, sc)})
 	if r.ConnErrC != nil || r.ConnErrS != nil {
 		c.Shard.Violate("handshake-failed-clean-link",
 			fmt.Sprintf("handshake over a clean link failed: client=%v server=%v", r.ConnErrC, r.ConnErrS),
